@@ -42,6 +42,7 @@ enum {
   F_PEER_RESET,     /* not injected by the kernel; performed by harness scripts */
   F_ALLOC_FAIL,     /* malloc/calloc returns NULL at a chosen call */
   F_EV_FEWER,       /* epoll_wait returns fewer events than ready */
+  F_TSO_FLUSH,      /* TSO mode: a buffered store becomes visible at this scheduling point */
   F_NKINDS
 };
 #define FBIT(k) (1u << (k))
@@ -57,6 +58,7 @@ int sim_thread_id(void);
 void sim_yield_point(void); /* explicit scheduling point */
 void sim_preempt_off(void); /* prefill phases: no preemption, no step cost */
 void sim_preempt_on(void);
+void sim_tso_enable(void);  /* x86-TSO store buffering for atomic stores weaker than seq_cst (data-structure harnesses only) */
 
 /* ---- verdicts ---- */
 void sim_violation(const char* oracle, const char* fmt, ...) SIM_NORETURN
